@@ -363,7 +363,24 @@ def main(tier, seed):
     snaps = snapshot_files()
     per, ncmd = (6, 16) if tier == "quick" else (150, 24)
     jobs = [{"seed": seed, "lo": i * per, "hi": (i + 1) * per, "ncmd": ncmd, "snaps": snaps} for i in range(NCPU)]
+    real = {"res": []}
+    th = None
+    if tier == "thorough":
+        # the real world (thorough tier only: a facade on a real loop needs minutes of real time):
+        # real asyncio loop, real UDP on 127.0.0.1, the hardware model on the simulator's engine thread
+        import threading
+
+        def real_part():
+            real["res"] = run_shards("checks.c13_real", "shard_real", [{"tier": "quick", "seed": seed, "pairs": 8}], timeout=3000, workers=1)
+
+        th = threading.Thread(target=real_part)
+        th.start()
     run.absorb(run_shards("checks.c13", "shard", jobs, timeout=3400))
+    if th is not None:
+        th.join()
+        run.absorb(real["res"])
+        if not run.counters.get("real_world_unavailable"):
+            run.need(run.counters.get("real_commands_ok", 0) >= 20, "the real-UDP part observed too few commands")
     try:
         from checks import c13_threaded
 
